@@ -4,7 +4,7 @@ import json, os, sys
 HERE = os.path.dirname(os.path.dirname(os.path.abspath(__file__)))
 C = {
  "C01": ("exploration", "runtime monitoring: icontract postcondition on Wtp.parse + structural invariant walker over generated hostile inputs",
-         "Wtp.parse executed on 10^4-10^6 generated inputs (token soups over the whole token alphabet, grammar documents, mutated real pages, depth stress) under plain / pre_expand / expand_all; an icontract postcondition on the real method, a tree walker for every clause of the statement and a state probe run on every returned tree; held = no clause failed on any observed execution",
+         "Wtp.parse executed on 10^4-10^6 generated inputs (token soups over the whole token alphabet incl. constructs inside tags and confusable characters, grammar documents, mutated real pages, depth stress, call shapes, run ladders whose CPU growth is extrapolated, and the repository's own tests) under plain / pre_expand / expand_all and with re-entrant template hooks; an icontract postcondition on the real method, a tree walker for every clause of the statement and a state probe run on every returned tree; held = no clause failed on any observed execution",
          "trusted: the walker's reading of the NodeKind docstrings; Lua stand-ins for the absent Scribunto files; inputs containing placeholder-range characters are a tagged class (documented assumption of the package)"),
  "C02": ("exploration", "runtime monitoring: unique-id outlines parsed by the real parser vs executable stack models of sections and lists (bounded-exhaustive + sampled)",
          "every heading-level sequence up to length 3/4 and every marker sequence up to 2/3 lines (exhaustive) plus sampled longer outlines, each with balanced fillers, parsed by Wtp.parse; every id's parent section / parent item / list identity compared with a 15+20 line model written from the statement",
@@ -16,7 +16,7 @@ C = {
          "acyclic template libraries and pages generated from an expansion AST grammar; the AST is evaluated by an independent reference and the rendered wikitext by the real expand(); outputs must be equal on every case; per-rule hit counters show every rule of the statement was exercised",
          "trusted: the reference evaluator (rules named in the statement); text alphabet without '=', '|', braces; tagged classes: positional trailing newline, numeric comparands"),
  "C05": ("exploration", "runtime monitoring: boundary wrapper on Wtp.expand (return | exception | CPU-budget overrun) over cyclic template libraries and every parser function x hostile arguments",
-         "expand() run on libraries with arbitrary (cyclic) call graphs, nesting to depth 100, every PARSER_FUNCTIONS key with hostile argument vectors, #expr token soups and magic words on every namespace; each call must return a str within a CPU budget; where the reference evaluator meets unbounded recursion the output must carry an error element and a recorded message",
+         "expand() run on libraries with arbitrary (cyclic) call graphs, nesting to depth 100 and far beyond (150/400/1100) in 17 shapes, every PARSER_FUNCTIONS key with hostile argument vectors, hostile argument names, template-free bracket soups, #expr token soups and magic words on every namespace; each call must return a str within a CPU budget; where the reference evaluator meets unbounded recursion the output must carry an error element and a recorded message",
          "trusted: CPU budget 10/20 s per <=2 kB case stands for 'bounded time'; network-bound functions excluded"),
  "C10": ("exploration", "runtime monitoring: recorded API histories with unique versions checked against a sequential store model (bounded-exhaustive + random)",
          "all operation histories up to length 3/4 over a 22-symbol alphabet plus random histories to length 40 run on the real page store (add/overwrite/redirect/lookup/exists/body/expand/commit/reopen/second context); every read compared with a sequential model; unique bodies identify the write each read observed",
@@ -40,11 +40,11 @@ C = {
          "pages mixing templates, loops, failing/timing-out Lua (virtual clock), bad parser-function input, non-decimal digit argument names and a caller hook that raises inside nested sub-expansions, under all 27 option combinations; expand_stack after every returning call (also nested ones made by frame:preprocess/expandTemplate) must equal its value at entry; every message checked for keys/title/section; 300 flat repetitions must not produce a depth error",
          "trusted: documented message keys = ErrorMessageData"),
  "C17": ("exploration", "runtime monitoring: real analyze_templates on generated inclusion graphs with a table-driven classifier vs a closure model (bounded-exhaustive + random)",
-         "all libraries on <=3 templates (adjacency x flags x redirects; sampled with redirect pages in quick) and random graphs to 8 templates with cycles, diamonds, hostile spellings; the marked set must lie between the two readings of the redirect clause; termination under a CPU budget",
+         "all libraries on <=3 templates (adjacency x flags x redirects; sampled with redirect pages in quick) and random graphs to 8 templates with cycles, diamonds, hostile spellings; the marked set must equal the joint least fixed point of the three rules (flagged, includers, redirects from/to) seeded with flagged and already-marked templates; a second analysis of the unchanged store must not change it (idempotence); termination under a CPU budget",
          "trusted: closure model; name resolution by the C10 title rules"),
  "C18": ("exploration", "runtime monitoring: #expr AST differential on the implementation's own primitives + independent string-function definitions + formatnum round trip over all shipped locales",
-         "expression ASTs to depth 5 rendered with minimal/full parentheses, random spacing and case must all evaluate to the AST's value; string functions compared with independent definitions on exhaustive small grids; plural and formatnum/R round trip for every locale file",
-         "trusted: primitive operator tables of the implementation (precedence/associativity is what is decided); documented domains only"),
+         "expression ASTs to depth 5 over all 19 operators rendered with minimal/full parentheses, random spacing and case must all evaluate to the AST's value (mod, fmod, round by independent definitions on fixed grids incl. exact halves and negative operands); string functions compared with independent definitions on exhaustive small grids; plural and formatnum/R round trip for every locale file",
+         "trusted: independent definitions of mod / fmod / round and of the string functions written from the MediaWiki manual; the implementation's own table only for the remaining arithmetic primitives; documented domains only"),
  "C19": ("exploration", "runtime monitoring: parse -> to_wikitext -> parse metamorphic relation under a block-boundary normaliser, second round trip, subtrees and strings",
          "grammar documents to depth 4: N(parse(to_wikitext(t))) == N(t), second trip is a fixed point, subtrees/child lists/strings passed directly, literal brackets never become links",
          "trusted: normaliser N (whitespace at block boundaries only)"),
